@@ -426,6 +426,12 @@ static void walkIterators(Line & l, It b, It e, long n) {
         auto it = e; it -= k; minuseq.push_back(*it);
     }
     size_t cmpWrong = 0;
+    // the const-qualified member overloads (`operator*() const`, `operator->() const`, `operator[](diff) const`, `toContainerId() const`)
+    // are only chosen for a const iterator OBJECT: same entries expected
+    { long k = 0; for (auto it = b; it != e; ++it, ++k) {
+        const It cit = it; const It cb = b;
+        cmpWrong += (*cit != *it) + (*(cit.operator->()) != *it) + (cb[k] != *it) + (cit.toContainerId() != it.toContainerId());
+    } }
     // values RETURNED by ++it, it += k, it -= k (the walks above only use their side effect)
     { long k = 0; for (auto it = b; it != e; ) { auto nw = ++it; ++k; cmpWrong += ((long)(nw - b) != k); } }
     for (long k = 0; k <= n; ++k) {
@@ -706,8 +712,15 @@ static void fmc_case(Rng & rng, const F::Factors & sp, const char * kind) {
 template <class M>
 static void emitSkipWalk(const char * kind, M && m, const std::vector<size_t> & ids, const std::vector<size_t> & cont, bool constIt) {
     std::vector<size_t> visited, vals;
-    if (constIt) for (auto it = m.cbegin(); it != m.cend(); ++it) { visited.push_back(it.toContainerId()); vals.push_back(*it); }
-    else for (auto it = m.begin(); it != m.end(); ++it) { visited.push_back(it.toContainerId()); vals.push_back(*(it.operator->())); }
+    // (const iterator objects select the const-qualified `operator*` / `operator->`; a disagreement is made visible in `vals`)
+    if (constIt) for (auto it = m.cbegin(); it != m.cend(); ++it) {
+        const auto cit = it;
+        visited.push_back(it.toContainerId()); vals.push_back(*cit == *it && *(cit.operator->()) == *it ? (size_t)*it : (size_t)999999999);
+    }
+    else for (auto it = m.begin(); it != m.end(); ++it) {
+        const auto cit = it;
+        visited.push_back(it.toContainerId()); vals.push_back(*cit == *it ? (size_t)*(it.operator->()) : (size_t)999999999);
+    }
     Line l; l << "C20" << "ism" << (std::string(kind) + (constIt ? "_c" : "")); l.nats(ids); l.nats(cont); l << "|";
     l.nats(visited); l.nats(vals); l << (size_t)m.size(); l.emit();
     std::printf("#stat ism_size_call_%s 1\n", m.size() == visited.size() ? "equals_range" : m.size() == ids.size() ? "equals_skip_count" : "other");
